@@ -55,6 +55,19 @@ def classify_case(m, c):
     import re
     if io != wo and bo == wo and re.search(r"\n[ \t]* {2,}\n", d) and wi.count("<br />") > wo.count("<br />"):
         return "blank-indented-line-becomes-hard-break"
+    if io != wo and bo == wo and "abbr" in c["plugins"]:
+        # the abbr plugin looks for its keys inside one text token at a time; speedup cuts text tokens at its stop characters and
+        # keeps line breaks inside them.  Only for keys that themselves hold a stop character or a line break.
+        keys = re.findall(r"^ {0,3}\*\[((?:[^\\\[\]]|\\.)+)\]:", d, re.M)
+        stops = set("\\><![_*`~^$=\n")
+        try:
+            ps = [x for x in c["plugins"] if x != "abbr"]
+            mk2 = _variants(m, ps, c["hard_wrap"], c["escape"])
+            same_without_abbr = mk2("without")(d) == mk2("with")(d)
+        except Exception:  # noqa
+            same_without_abbr = False
+        if same_without_abbr and any(set(k) & stops for k in keys) and wi.count("<abbr") + wo.count("<abbr") > 0:
+            return "abbr-key-with-stop-character-or-line-break"
     return None
 
 
@@ -117,6 +130,10 @@ def oracle(ctx, extra):
             doc = gen_docs.noise(r)
         cfg_k = r.random()
         plugins = [] if cfg_k < 0.25 else (["strikethrough", "footnotes", "table"] if cfg_k < 0.4 else r.sample(P, r.randint(1, 8)))
+        if i % 8 == 3:
+            # a document that really uses one plugin's constructs (definitions + uses, wrapped uses), with that plugin enabled
+            need, doc = gen_docs.showcase_for(r)
+            plugins = need + [x for x in plugins if x not in need]
         c = {"input": doc, "plugins": plugins, "hard_wrap": r.random() < 0.35, "escape": r.random() < 0.75}
         if check_one(m, c, fails):
             n += 1
@@ -128,7 +145,7 @@ def oracle(ctx, extra):
     return {"evaluations": n, "distinct_nontrivial": len(seen), "failures": fails, "known_finding_instances": len(known),
             "known_by_class": {k: sum(1 for f in known if f["class"] == k) for k in {f["class"] for f in known}},
             "rule": "documents: 50% generated with all plugin syntaxes, 15% interrupt/lazy fragments, 20% strings dense in stop "
-                    "characters / white space / hard and soft breaks / URLs / entities, 15% noise; configurations: core (25%), "
+                    "characters / white space / hard and soft breaks / URLs / entities, 15% noise; every 8th a showcase of one plugin's constructs with that plugin enabled (abbreviations with multi-word, prefix and stop-character keys, uses wrapped over two lines); configurations: core (25%), "
                     "mistune.html's own set (15%), 1-8 random plugins; hard_wrap 35%, escape=False 25%; HTML compared with "
                     "plugins=P vs P+['speedup']; a difference is shrunk by delta debugging and classified by re-running with "
                     "only the block half / only the inline half of speedup",
